@@ -1418,6 +1418,14 @@ func (ip *idxProver) prove(fn *Func, at ast.Node, goals []goal, depth int) (bool
 
 // substExpr clones an expression tree replacing identifier obj by repl.
 func substExpr(e ast.Expr, obj types.Object, repl ast.Expr, info *types.Info) ast.Expr {
+	// the clone of a node keeps the node's type: replacing a variable by an expression of
+	// the same type does not change the type of what contains it
+	keep := func(orig, clone ast.Expr) ast.Expr {
+		if tv, ok := info.Types[orig]; ok {
+			info.Types[clone] = tv
+		}
+		return clone
+	}
 	switch x := e.(type) {
 	case *ast.Ident:
 		if info.ObjectOf(x) == obj {
@@ -1427,24 +1435,32 @@ func substExpr(e ast.Expr, obj types.Object, repl ast.Expr, info *types.Info) as
 	case *ast.ParenExpr:
 		return substExpr(x.X, obj, repl, info)
 	case *ast.UnaryExpr:
-		return &ast.UnaryExpr{Op: x.Op, X: substExpr(x.X, obj, repl, info)}
+		return keep(x, &ast.UnaryExpr{Op: x.Op, X: substExpr(x.X, obj, repl, info)})
 	case *ast.SelectorExpr:
-		return &ast.SelectorExpr{X: substExpr(x.X, obj, repl, info), Sel: x.Sel}
+		c := &ast.SelectorExpr{X: substExpr(x.X, obj, repl, info), Sel: x.Sel}
+		if sel, ok := info.Selections[x]; ok {
+			info.Selections[c] = sel
+		}
+		return keep(x, c)
 	case *ast.StarExpr:
-		return &ast.StarExpr{X: substExpr(x.X, obj, repl, info)}
+		return keep(x, &ast.StarExpr{X: substExpr(x.X, obj, repl, info)})
 	case *ast.BinaryExpr:
-		return &ast.BinaryExpr{X: substExpr(x.X, obj, repl, info), Op: x.Op, Y: substExpr(x.Y, obj, repl, info)}
+		return keep(x, &ast.BinaryExpr{X: substExpr(x.X, obj, repl, info), Op: x.Op, Y: substExpr(x.Y, obj, repl, info)})
 	case *ast.CallExpr:
 		c := &ast.CallExpr{Fun: x.Fun}
 		if sel, ok := x.Fun.(*ast.SelectorExpr); ok {
-			c.Fun = &ast.SelectorExpr{X: substExpr(sel.X, obj, repl, info), Sel: sel.Sel}
+			ns := &ast.SelectorExpr{X: substExpr(sel.X, obj, repl, info), Sel: sel.Sel}
+			if s0, ok := info.Selections[sel]; ok {
+				info.Selections[ns] = s0
+			}
+			c.Fun = keep(sel, ns)
 		}
 		for _, a := range x.Args {
 			c.Args = append(c.Args, substExpr(a, obj, repl, info))
 		}
-		return c
+		return keep(x, c)
 	case *ast.IndexExpr:
-		return &ast.IndexExpr{X: substExpr(x.X, obj, repl, info), Index: substExpr(x.Index, obj, repl, info)}
+		return keep(x, &ast.IndexExpr{X: substExpr(x.X, obj, repl, info), Index: substExpr(x.Index, obj, repl, info)})
 	case *ast.SliceExpr:
 		s := &ast.SliceExpr{X: substExpr(x.X, obj, repl, info)}
 		if x.Low != nil {
@@ -1453,7 +1469,7 @@ func substExpr(e ast.Expr, obj types.Object, repl ast.Expr, info *types.Info) as
 		if x.High != nil {
 			s.High = substExpr(x.High, obj, repl, info)
 		}
-		return s
+		return keep(x, s)
 	}
 	return e
 }
